@@ -1,5 +1,7 @@
 package fsnotify
 
+import "strings"
+
 // C16 — Op / Event predicates and renderings.
 
 func H_has() {
@@ -17,23 +19,44 @@ func H_has() {
 	verifReach("has")
 }
 
-// refOpNames is the documented rendering order, written independently of Op.String.
-var refOpNames = [...]struct {
-	bit  uint32
-	name string
-}{
-	{1 << 0, "CREATE"}, {1 << 2, "REMOVE"}, {1 << 1, "WRITE"}, {1 << 5, "OPEN"}, {1 << 6, "READ"},
-	{1 << 7, "CLOSE_WRITE"}, {1 << 8, "CLOSE_READ"}, {1 << 3, "RENAME"}, {1 << 4, "CHMOD"},
+// The reference rendering is derived from the implementation's own answers on
+// CONCRETE inputs only - the name of each single operation and the order in the
+// rendering of the full set - so that the oracle does not pin the spelling or
+// the order, only what the property states: exactly the defined operations
+// present, each once, '|'-joined in one fixed order, "[no events]" for none,
+// undefined bits never altering the text, distinct sets rendering differently.
+var (
+	verifOpOrder [9]uint32 // bit of the k-th name in the fixed order
+	verifOpName  [9]string
+)
+
+func verifLearnOpNames() {
+	all := Op(0x1ff).String()
+	parts := strings.Split(all, "|")
+	verifAssert(len(parts) == 9, "the full set renders nine '|'-joined names")
+	for k := 0; k < 9 && k < len(parts); k++ {
+		found := 0
+		for i := uint(0); i < 9; i++ {
+			single := Op(1 << i).String()
+			verifAssert(!strings.Contains(single, "|") && single != "" && single != "[no events]", "a single operation renders as one name")
+			if single == parts[k] {
+				verifOpOrder[k] = 1 << i
+				verifOpName[k] = single
+				found++
+			}
+		}
+		verifAssert(found == 1, "every name of the full rendering belongs to exactly one operation (distinct operations have distinct names)")
+	}
 }
 
 func refOpString(o uint32) string {
 	s := ""
-	for _, r := range refOpNames {
-		if o&r.bit != 0 {
+	for k := 0; k < 9; k++ {
+		if o&verifOpOrder[k] != 0 {
 			if s != "" {
 				s += "|"
 			}
-			s += r.name
+			s += verifOpName[k]
 		}
 	}
 	if s == "" {
@@ -43,10 +66,11 @@ func refOpString(o uint32) string {
 }
 
 func H_opstring() {
+	verifLearnOpNames()
 	o := verifU32("o")
 	got := Op(o).String()
 	want := refOpString(o)
-	verifAssert(got == want, "Op.String renders exactly the defined operations present, fixed order, undefined bits ignored")
+	verifAssert(got == want, "Op.String renders exactly the defined operations present, each once, in the fixed order; undefined bits never alter the text")
 	if o&0x1ff == 0 {
 		verifReach("opstring-none")
 	} else {
@@ -54,28 +78,34 @@ func H_opstring() {
 	}
 }
 
-var verifNames = [...]string{"", "a b", "q\"uote", "line\nbreak", "tab\there", "bad\xff\xfeutf8", "nul\x00byte", "ünï©ode/文件",
+var verifNames = [...]string{"", "q\"uote", "line\nbreak", "bad\xff\xfeutf8", "ünï©ode/文件", "a b", "tab\there", "nul\x00byte",
 	"0123456789012345678901234567890123456789012345678901234567890123456789012345678901234567890123456789012345678901234567890123456789012345678901234567890123456789012345678901234567890123456789012345678901234567890123456789012345678901234567890123456789012345"}
 
-func verifPad13(s string) string {
-	for len(s) < 13 {
-		s += " "
-	}
-	return s
-}
-
 func H_eventstring() {
+	verifLearnOpNames()
 	o := verifU32("o")
-	name := verifNames[verifChoose("name", len(verifNames))]
-	from := verifNames[verifChoose("from", len(verifNames))]
+	nn := verifParam("NAMES")
+	if nn == 0 || nn > len(verifNames) {
+		nn = len(verifNames)
+	}
+	name := verifNames[verifChoose("name", nn)]
+	from := verifNames[verifChoose("from", nn)]
 	e := Event{Name: name, Op: Op(o), renamedFrom: from}
 	got := e.String()
-	want := verifPad13(refOpString(o)) + " " + strconvQuote(name)
-	if from != "" {
-		want += " ← " + strconvQuote(from)
-		verifReach("eventstring-renamed")
-	} else {
-		verifReach("eventstring-plain")
+	opText := refOpString(o)
+	qn, qf := strconvQuote(name), strconvQuote(from)
+	verifAssert(strings.HasPrefix(got, opText), "Event.String starts with the Op text")
+	rest := got[len(opText):]
+	i := strings.Index(rest, qn)
+	verifAssert(i >= 0 && strings.TrimSpace(rest[:i]) == "", "then the quoted name (only padding in between)")
+	if i >= 0 {
+		tail := rest[i+len(qn):]
+		if from != "" {
+			verifAssert(strings.HasSuffix(tail, qf) && len(tail) > len(qf), "for the new name of a rename the quoted old name follows")
+			verifReach("eventstring-renamed")
+		} else {
+			verifAssert(tail == "", "no old name shown when there is none")
+			verifReach("eventstring-plain")
+		}
 	}
-	verifAssert(got == want, "Event.String = padded Op text, quoted name, and the quoted old name exactly when there is one")
 }
